@@ -1,6 +1,6 @@
 (* Dispatch.v — one entry point `run op arg` for every executable model and spec.
    Used identically by the extracted runner (coq/extract) and by `Eval vm_compute` re-evaluation. *)
-From Verif Require Import PyVal Enc ComparableGen Order.
+From Verif Require Import PyVal Rows Enc ComparableGen AsIndicesGen Order Sort SortSpec.
 Open Scope Z_scope.
 
 Definition run_cmp (arg : val) : val :=
@@ -11,6 +11,61 @@ Definition run_cmp (arg : val) : val :=
   | _ => bad_input
   end.
 
+Definition enc_optbool (o : option bool) : val :=
+  match o with Some b => vbool b | None => VNone end.
+
+(* sort: (buffersize|None, reverse, key|None, table) *)
+Definition run_sort (arg : val) : val :=
+  match arg with
+  | VSeq _ [bs; rev; key; t] =>
+      match dec_opt dec_nat bs, dec_bool rev, dec_table t with
+      | Some bs', Some rev', Some t' =>
+          enc_gen (sort_model bs' rev' (match key with VNone => None | k => Some k end) t')
+      | _, _, _ => bad_input
+      end
+  | _ => bad_input
+  end.
+
+(* sort_spec: (reverse, key|None, input table, output table) -> bool | None *)
+Definition run_sort_spec (arg : val) : val :=
+  match arg with
+  | VSeq _ [rev; key; t; o] =>
+      match dec_bool rev, dec_table t, dec_table o with
+      | Some rev', Some t', Some o' =>
+          enc_optbool (sort_spec_holds rev' (match key with VNone => None | k => Some k end) t' o')
+      | _, _, _ => bad_input
+      end
+  | _ => bad_input
+  end.
+
+(* mergesort: (key|None, reverse, presorted, missing, header|None, buffersize|None, (tables...)) *)
+Definition run_mergesort (arg : val) : val :=
+  match arg with
+  | VSeq _ [key; rev; pre; missing; header; bs; VSeq _ ts] =>
+      match dec_bool rev, dec_bool pre, dec_opt dec_row header, dec_opt dec_nat bs, dec_all dec_table ts with
+      | Some rev', Some pre', Some h', Some bs', Some ts' =>
+          enc_gen (mergesort_model (match key with VNone => None | k => Some k end) rev' pre' missing h' bs' ts')
+      | _, _, _, _, _ => bad_input
+      end
+  | _ => bad_input
+  end.
+
+(* issorted: (key|None, reverse, strict, table) *)
+Definition run_issorted (arg : val) : val :=
+  match arg with
+  | VSeq _ [key; rev; strict; t] =>
+      match dec_bool rev, dec_bool strict, dec_table t with
+      | Some rev', Some s', Some t' =>
+          enc_res vbool (issorted_model (match key with VNone => None | k => Some k end) rev' s' t')
+      | _, _, _ => bad_input
+      end
+  | _ => bad_input
+  end.
+
 Definition run (op : list Z) (arg : val) : val :=
   if zs_eqb op "cmp" then run_cmp arg
+  else if zs_eqb op "sort" then run_sort arg
+  else if zs_eqb op "sort_spec" then run_sort_spec arg
+  else if zs_eqb op "mergesort" then run_mergesort arg
+  else if zs_eqb op "issorted" then run_issorted arg
   else vtuple [vstr "!unknown-op"].
